@@ -295,7 +295,7 @@ func toGo(mech string, s sig) sig {
 		return s
 	case "uncatch":
 		switch mech {
-		case "run", "call", "ctor", "expe":
+		case "run", "call", "ctor", "expe", "new": // Runtime.New returns the condition as its error result, like the Constructor of AssertConstructor (fix ca4b743)
 			s.via = "err"
 		default:
 			s.via = "panic"
